@@ -21,6 +21,8 @@ conditions are — which can only be proved when there is no `branch`/`other` in
 """
 import ast
 
+import symflow as sf
+
 FILE_METHODS = {'seek', 'truncate', 'write'}
 CONTROL = (ast.If, ast.Return, ast.Raise, ast.For, ast.While, ast.Try, ast.Break, ast.Continue, ast.Match, ast.Assert,
            ast.AsyncFor, ast.With, ast.AsyncWith)
@@ -111,63 +113,158 @@ def write_part_ops(ctx, fn):
     return ops, ''
 
 
-def every_ref_reaches(ctx, rs):
-    wcr = ctx.find_func(rs, '_write_chunk_ref')
-    dc = ctx.find_func(rs, '_download_chunk')
-    if wcr is None or dc is None:
-        return False, 'restore._write_chunk_ref / _download_chunk not found'
+class _Interp(sf.Interp):
+    """symflow interpreter that also remembers the guard under which a comprehension / `map` is entered"""
 
-    def parents(root):
-        par = {}
-        for n in ast.walk(root):
-            for ch in ast.iter_child_nodes(n):
-                par[ch] = n
-        return par
+    def __init__(self, *a, **kw):
+        super().__init__(*a, **kw)
+        self.entered_under = {}
 
-    def guarded(node, par, root):
-        """is the node under an if / try / loop / nested function inside root (a `with` block is fine)"""
-        n = par.get(node)
-        while n is not None and n is not root:
-            if isinstance(n, (ast.If, ast.Try, ast.For, ast.While, ast.IfExp, ast.FunctionDef, ast.Lambda, ast.BoolOp, ast.Match)):
-                return True
-            n = par.get(n)
-        return False
+    def _comp(self, e, env, elt_fn):
+        g = frozenset(x for x, _ in self.guard)
+        r = super()._comp(e, env, elt_fn)
+        self.entered_under[r[3]] = g
+        return r
 
-    par = parents(wcr)
-    calls = [n for n in ast.walk(wcr) if isinstance(n, ast.Call) and ctx.unparse(n.func) == 'self._write_file_part']
-    if len(calls) != 1:
-        return False, f'_write_chunk_ref calls _write_file_part {len(calls)} times'
-    call = calls[0]
-    if guarded(call, par, wcr):
-        return False, '_write_file_part is called under a condition in _write_chunk_ref'
-    # no early exit before the call
-    for n in ast.walk(wcr):
-        if isinstance(n, (ast.Return, ast.Raise, ast.Continue, ast.Break)) and n.lineno < call.lineno:
-            return False, '_write_chunk_ref may leave before the call'
-    unpack = [ctx.unparse(n) for n in wcr.body if isinstance(n, ast.Assign)]
-    args = [ctx.unparse(a) for a in call.args]
-    if 'file_path, chunk_size, stream_start, start = ref' not in unpack or len(args) != 3 or \
-            args[1].replace(' ', '') != 'contents[start:start+chunk_size]' or args[2] != 'stream_start':
-        return False, f'arguments of _write_file_part not recognised: {args}'
-    # _download_chunk: for ref in refs: writer.submit(_write_chunk_ref, ref, view) — unconditionally
-    par = parents(dc)
-    subs = [n for n in ast.walk(dc) if isinstance(n, ast.Call) and any(ctx.unparse(a) == '_write_chunk_ref' for a in n.args)
-            or (isinstance(n, ast.Call) and ctx.unparse(n.func) == '_write_chunk_ref')]
-    if len(subs) != 1:
-        return False, f'_write_chunk_ref is used {len(subs)} times in _download_chunk'
-    n = par.get(subs[0])
-    loop = None
-    while n is not None and n is not dc:
-        if isinstance(n, ast.For) and loop is None and ctx.unparse(n.iter) == 'refs' and ctx.unparse(n.target) == 'ref':
-            loop = n
-        elif isinstance(n, (ast.If, ast.Try, ast.While, ast.IfExp, ast.For, ast.BoolOp, ast.FunctionDef, ast.Lambda, ast.Match)):
-            return False, 'the submission of _write_chunk_ref is conditional'
-        n = par.get(n)
-    if loop is None:
-        return False, 'no `for ref in refs` loop around the submission'
-    if any(isinstance(x, (ast.Continue, ast.Break, ast.Return)) for x in ast.walk(loop)):
-        return False, 'the loop over refs may skip references'
-    return True, ''
+    def _map(self, f, it, node):
+        g = frozenset(x for x, _ in self.guard)
+        r = super()._map(f, it, node)
+        self.entered_under[r[3]] = g
+        return r
+
+
+_TRANSPARENT = ('deferred', 'inline', 'with', 'try-body', 'try-else', 'finally')
+_SEEK_SET = (sf.const(0), ('global', 'io.SEEK_SET'), ('global', 'os.SEEK_SET'))
+
+
+def _is_open_call(t):
+    return t[0] == 'call' and ((t[1][0] == 'attr' and t[1][2] == 'open') or (t[1][0] == 'global' and t[1][1] in ('open', 'io.open', 'os.fdopen')))
+
+
+def _is_file(t):
+    return sf.contains(t, _is_open_call)
+
+
+def _strip_view(t):
+    while t[0] == 'call' and t[1][0] == 'global' and t[1][1] in ('memoryview', 'bytes', 'bytearray') and len(t[2]) == 1 and not t[3]:
+        t = t[2][0]
+    return t
+
+
+def _component(t):
+    """`ref[n]` / the n-th name of `a, b, c, d = ref`  ->  (ref term, n)"""
+    if t[0] == 'unpack':
+        return t[1], t[2]
+    if t[0] == 'sub' and sf.is_const(t[2], int) and t[2][1] >= 0:
+        return t[1], t[2][1]
+    return None
+
+
+def _strip_passthrough(t):
+    while t[0] == 'call' and t[1][0] == 'global' and t[1][1] in sf.PASS_THROUGH_ITER and len(t[2]) >= 1:
+        t = t[2][0]
+    return t
+
+
+def file_writes(evs):
+    """the `file.write(data)` events of a run whose data is not a constant: [(event, file term, data term)]"""
+    out = []
+    for e in evs:
+        if e.kind == 'call' and e.callee[0] == 'attr' and e.callee[2] == 'write' and len(e.args) == 1 and _is_file(e.callee[1]) \
+                and not sf.is_const(e.args[0]):
+            out.append((e, e.callee[1], e.args[0]))
+    return out
+
+
+def every_ref_reaches(interp, evs):
+    """Over the symbolic execution of `restore` (helpers, nested functions, functions handed to executors all inlined): every element
+    `ref` of the list of references a chunk loader gets reaches ONE `file.write` — under no condition beyond those under which the loop
+    over the references is entered, in no further loop / exception handler — and what is written is `contents[ref[s] : ref[s] + ref[n]]`
+    at the position `file.seek(ref[o])`, where (s, n, o) are the slots the restore plan fills with (start in the chunk, length,
+    position in the file).  -> (ok, why, name of the function that holds the write)"""
+    writes = file_writes(evs)
+    if not writes:
+        return False, 'no write of referenced data to an opened file found in restore', None
+    per_loop = {}
+    layout = None
+    holder = None
+    for w, fterm, data in writes:
+        d = _strip_view(data)
+        if not (d[0] == 'sub' and d[2][0] == 'slice' and d[2][3] == sf.NONE):
+            return False, f'written data is not a slice of the chunk contents: {sf.show(data)[:80]}', None
+        contents, lo, hi = d[1], d[2][1], d[2][2]
+        cs = _component(lo)
+        if cs is None or cs[0][0] != 'elem':
+            return False, f'start of the written slice is not a slot of the reference: {sf.show(lo)[:80]}', None
+        ref, s_i = cs
+        cn = None
+        if hi[0] == 'binop' and hi[1] == 'Add':
+            other = hi[3] if hi[2] == lo else (hi[2] if hi[3] == lo else None)
+            cn = _component(other) if other is not None else None
+        if cn is None or cn[0] != ref:
+            return False, f'end of the written slice is not start + a slot of the reference: {sf.show(hi)[:80]}', None
+        n_i = cn[1]
+        if sf.mentions(contents, ref) or sf.is_const(contents):
+            return False, 'the sliced contents depend on the reference', None
+        # the position: the last seek on this file before the write, in the same frame
+        seeks = [e for e in evs if e.kind == 'call' and e.callee == ('attr', fterm, 'seek') and e.seq < w.seq and e.ctx == w.ctx]
+        if not seeks:
+            return False, 'no seek before the write', None
+        sk = seeks[-1]
+        if not (len(sk.args) == 1 or (len(sk.args) == 2 and sk.args[1] in _SEEK_SET)) or sk.kwargs:
+            return False, f'the last seek before the write is not absolute: {sf.show(sk.value)[:80]}', None
+        co = _component(sk.args[0])
+        if co is None or co[0] != ref:
+            return False, f'the write position is not a slot of the reference: {sf.show(sk.args[0])[:80]}', None
+        o_i = co[1]
+        if len({s_i, n_i, o_i}) != 3:
+            return False, 'start / length / position are not three different slots of the reference', None
+        if layout is not None and layout != (s_i, n_i, o_i):
+            return False, 'two writes read the reference differently', None
+        layout = (s_i, n_i, o_i)
+        # the loop over the references, and nothing conditional between it and the write
+        k = len(w.ctx) - 1
+        while k >= 0 and w.ctx[k][0] in _TRANSPARENT:
+            k -= 1
+        if k < 0 or w.ctx[k][0] not in ('for', 'comp'):
+            return False, f'the write is inside a {w.ctx[k][0] if k >= 0 else "function that is not applied to every reference"}', None
+        tag, lid = w.ctx[k][0], w.ctx[k][1]
+        loop = interp.loops.get(lid)
+        if loop is not None:
+            if loop.kind not in ('for',) or _strip_passthrough(loop.iter) != ref[1]:
+                return False, 'the enclosing loop does not run over the references of the written slice', None
+            outer = loop.outer_guard
+        elif lid in interp.entered_under:
+            outer = interp.entered_under[lid]
+        else:
+            return False, 'enclosing iteration not understood', None
+        if sf.contains(ref[1], lambda t: t[0] in ('slice', 'phi') or (t[0] == 'comp' and t[2])):
+            return False, 'only a part of the references is iterated', None
+        extra = w.guard - outer
+        if extra:
+            return False, 'a reference reaches the write only under ' + sf.show_guard(extra)[:120], None
+        per_loop[lid] = per_loop.get(lid, 0) + 1
+        inl = [c for c in w.ctx if c[0] == 'inline' and len(c) >= 3]
+        holder = inl[-1][2] if inl else None
+    if any(v != 1 for v in per_loop.values()):
+        return False, 'a reference is written more than once', None
+    # the slots as the plan fills them: the 4-tuple appended per reference
+    s_i, n_i, o_i = layout
+    plans = [e.args[0][1] for e in evs if e.kind == 'call' and e.callee[0] == 'attr' and e.callee[2] == 'append' and len(e.args) == 1
+             and e.args[0][0] == 'tuple' and len(e.args[0][1]) > max(layout) and len(e.args[0][1]) >= 4]
+    if not plans:
+        if layout != (3, 1, 2):
+            return False, f'slots {layout} of the reference, and the place where the plan builds references was not found', None
+        return True, '', holder
+    for t in plans:
+        length, start, pos = t[n_i], t[s_i], t[o_i]
+        if not (length[0] == 'binop' and length[1] == 'Sub' and length[3] == start):
+            return False, f'slot {n_i} of a reference is not (end - slot {s_i}): {sf.show(length)[:80]}', None
+        lp = interp.loops.get(pos[1]) if pos[0] == 'carried' else None
+        nxt = lp.next.get(pos[2]) if lp is not None else None
+        if lp is None or lp.init.get(pos[2]) != sf.const(0) or nxt not in (('binop', 'Add', pos, length), ('binop', 'Add', length, pos)):
+            return False, f'slot {o_i} of a reference is not the running sum of the lengths', None
+    return True, '', holder
 
 
 def section(ctx):
@@ -177,7 +274,20 @@ def section(ctx):
     ctx.emit('inductive WOp where')
     ctx.emit('  | seekEnd | truncate | seekOffset | writeData | branch | other')
     ctx.emit('deriving DecidableEq, Repr')
-    wf = ctx.find_func(tree, 'Repository', '_write_file_part')
+    # symbolic execution of restore: where do the references end up?
+    interp, evs = None, None
+    try:
+        mod = sf.Module(src)
+        if 'Repository' in mod.classes:
+            interp = _Interp(mod, 'Repository')
+            evs, _ = interp.run('restore')
+    except (sf.TooBig, RecursionError):
+        evs = None
+    ok, why, holder = (False, 'restore not found / too large', None) if evs is None else every_ref_reaches(interp, evs)
+    # the function that performs the write (whatever it is called), for the operation list
+    wf = ctx.find_func(tree, 'Repository', holder) if holder else None
+    if wf is None:
+        wf = ctx.find_func(tree, 'Repository', '_write_file_part')
     ops, note = (None, '_write_file_part not found') if wf is None else write_part_ops(ctx, wf)
     if ops is None:
         ctx.notes['write_file_part.ops'] = note
@@ -186,8 +296,6 @@ def section(ctx):
         ctx.emit('def writePartOps : List WOp := [' + ', '.join('.' + o for o in ops) + ']')
         if ops != ['seekEnd', 'truncate', 'seekOffset', 'writeData']:
             ctx.notes['write_file_part.ops'] = f'not the straight line seekEnd, truncate, seekOffset, writeData: {ops}'
-    rs = ctx.find_func(tree, 'Repository', 'restore')
-    ok, why = (False, 'restore not found') if rs is None else every_ref_reaches(ctx, rs)
     if not ok:
         ctx.notes['restore.every_ref_reaches_write_part'] = why
     ctx.emit(f'def everyRefReachesWritePart : Bool := {"true" if ok else "false"}')
